@@ -504,6 +504,13 @@ func init() {
 	for _, n := range []string{"Trace", "Debug", "Info", "Warn", "Error"} {
 		intrinsics[lg+n] = noop
 	}
+	for _, n := range []string{"Trace", "Debug", "Info", "Warn", "Error"} {
+		intrinsics["(*"+ModPath+"/logging.logger)."+n] = noop
+	}
+	intrinsics["(*"+ModPath+"/logging.logger).Crit"] = func(e *Engine, fr *frame, a []Value) Value {
+		m, _ := e.concStr(a[1])
+		panic(targetPanic{e.mkStr("logging.Crit: " + m)})
+	}
 	intrinsics[lg+"Crit"] = func(e *Engine, fr *frame, a []Value) Value {
 		m, _ := e.concStr(a[0])
 		panic(targetPanic{e.mkStr("logging.Crit: " + m)})
